@@ -93,6 +93,10 @@ class Gen(object):
                 items.append(['figure', self.mk(), self.mk()])
             elif c < 0.98:
                 items.append(['footlist', self.mk(), self.mk('fk'), self.mk()])
+            elif c < 0.976:
+                items.append(['tabempty'] + [self.mk() for _ in range(6)])            # rows that begin with an empty cell
+            elif c < 0.98:
+                items.append(['longtable'] + [self.mk() for _ in range(10)])          # two-row first head, body, last foot
             elif c < 0.982:
                 items.append(['footsame', self.mk(), self.mk('fk'), self.mk()])       # two footnotes with the very same text
             elif c < 0.984:
@@ -183,6 +187,12 @@ def render_body(items, out):
             out.append('\\begin{description}\\item[%s] %s\\end{description}\n' % (it[1], it[2]))
         elif k == 'quote':
             out.append('\\begin{quote}%s\\end{quote}\n\\begin{center}%s\\end{center}\n' % (it[1], it[2]))
+        elif k == 'tabempty':
+            out.append('\\begin{tabular}{lll} & %s & %s \\\\ %s & %s & %s \\\\ & %s & \\end{tabular}\n' % tuple(it[1:7]))
+        elif k == 'longtable':
+            out.append('\\begin{longtable}{ll}\\caption{long table}\\\\ %s & %s \\\\ %s & %s \\\\ \\endfirsthead cont & cont \\\\ \\endhead '
+                       'contfoot & contfoot \\\\ \\endfoot %s & %s \\\\ \\endlastfoot %s & %s \\\\ %s & %s \\\\ \\end{longtable}\n'
+                       % (it[1], it[2], it[3], it[4], it[9], it[10], it[5], it[6], it[7], it[8]))
         elif k == 'footsame':
             out.append('%s\\footnote{%s} %s\\footnote{%s}.\n' % (it[1], it[2], it[3], it[2]))
         elif k == 'foottext':
@@ -208,8 +218,17 @@ def render_units(units, out, appendix_before=None):
         render_units(u['children'], out)
 
 
+def _uses(doc, kind):
+    def inbody(items):
+        return any(it[0] == kind for it in items)
+
+    def walk(us):
+        return any(inbody(u['body']) or walk(u['children']) for u in us)
+    return inbody(doc['body']) or walk(doc['children'])
+
+
 def doc_source(doc):
-    out = ['\\documentclass{%s}\n\\begin{document}\n' % doc['cls']]
+    out = ['\\documentclass{%s}\n%s\\begin{document}\n' % (doc['cls'], '\\usepackage{longtable}\n' if _uses(doc, 'longtable') else '')]
     render_body(doc['body'], out)
     render_units(doc['children'], out, doc.get('appendix_before'))
     out.append('\\end{document}\n')
@@ -241,6 +260,10 @@ def body_markers(items):
             b.append(it[1]); f.append(it[2]); b.append(it[3])
         elif k == 'footsame':
             b.append(it[1]); f.append(it[2]); b.append(it[3]); f.append(it[2])
+        elif k == 'tabempty':
+            b.extend(it[1:7])
+        elif k == 'longtable':
+            b.extend(it[1:11])            # first head (2 rows), body (2 rows), last foot - the continuation head/foot carry no marker
         elif k == 'abstract':
             b.append(it[1])
     return b, f
@@ -768,6 +791,7 @@ def enumerate_cases(base_seed, tier):
             secs = []
             for shapes in (['foottext', 'footquote', 'footsame'], ['footmarktext', 'foottext'], ['footquote', 'footsame']):
                 body = [['para', [g.mk()]]] + [[sh, g.mk(), g.mk('fk'), g.mk()] for sh in shapes] + [['footpara', g.mk(), g.mk('fk'), g.mk()]]
+                body += [['tabempty'] + [g.mk() for _ in range(6)], ['longtable'] + [g.mk() for _ in range(10)]]
                 secs.append({'kind': 'section', 'level': 1, 'star': False, 'label': None, 'title': g.mk('tk'), 'body': body, 'children': []})
             fdoc = {'cls': 'article', 'body': [['footquote', g.mk(), g.mk('fk'), g.mk()]], 'children': secs}
             r = random.Random(core.h64('C13-foot', base_seed, k, split))
